@@ -339,6 +339,19 @@ func cmdCheck(args []string) {
 	if *update {
 		baseline[prop] = uniq(sortS(newBase))
 		saveBaseline(*verif, baseline)
+		// parameter names and types of every function under contract, so that a later rename is recognised as one
+		bp := map[string][][2]string{}
+		if b, err := os.ReadFile(filepath.Join(*verif, "expect_params.json")); err == nil {
+			json.Unmarshal(b, &bp)
+		}
+		for _, con := range P.contracts.All {
+			if fn := P.fnByKey[con.Key]; con.Kind == "func" && fn != nil && fn.Signature != nil {
+				bp[con.Key] = paramSig(fn.Signature)
+			}
+		}
+		if b, err := json.MarshalIndent(bp, "", " "); err == nil {
+			os.WriteFile(filepath.Join(*verif, "expect_params.json"), b, 0o644)
+		}
 	}
 
 	// 5. evidence
@@ -631,6 +644,9 @@ func (P *Program) describeAssumption(a string) string {
 	}
 	if strings.HasPrefix(a, "CLOSURE-SPEC:") {
 		return "note (not an assumption): closure " + strings.TrimPrefix(a, "CLOSURE-SPEC:") + " is summarised by its own verified contract at the use site"
+	}
+	if strings.HasPrefix(a, "PARAM-RENAMED:") {
+		return "note (not an assumption): a parameter renamed since the baseline is bound to its old name in the contract of " + strings.TrimPrefix(a, "PARAM-RENAMED:")
 	}
 	if strings.HasPrefix(a, "UNTRACKED-FIELD:") {
 		return "note (not an assumption): cell " + strings.TrimPrefix(a, "UNTRACKED-FIELD:") + " is written, no contract, spec or property configuration mentions that field: implicitly in `modifies`, no frame obligation"
